@@ -158,7 +158,7 @@ def r08_4(ctx, run, rule='R08.4'):
                                     r0 = None
                                 if not (r0 is not None and not r0.empty() and r0.lo() >= 1):
                                     allok = False
-                                    at0 = [x_ for x_ in subterms(v0) if x_[0] in ('init', 'hav', 'field', 'len')] or [v0]
+                                    at0 = list(lin(v0)[0].keys()) or [v0]
                                     if any(v0 in set(subterms(c[0])) or any(x_ in set(subterms(c[0])) for x_ in at0) for c in q0.conds):
                                         anyguard = True
                             if allok:
@@ -170,7 +170,7 @@ def r08_4(ctx, run, rule='R08.4'):
                     if proven:
                         verdict.setdefault(line, 'ok')
                     else:
-                        atoms_ = [x_ for x_ in subterms(L) if x_[0] in ('init', 'hav', 'field', 'len')] or [L]
+                        atoms_ = list(lin(L)[0].keys()) or [L]      # the quantities the argument is a linear combination of (not the arguments of calls inside it)
                         mentioned = any(any(x_ in set(subterms(c[0])) for x_ in atoms_) or L in set(subterms(c[0])) for c in q.conds[:e[6]])
                         # the guard may sit in an earlier region (before a loop head): only a path from the function entry is conclusive
                         if q.blocks and q.blocks[0] == 0 and not mentioned:
